@@ -113,7 +113,7 @@ def run_script(ctx, script, mode_args=("-s", "-e")):
         res["checked"] = i + 1
         if field and "alt" in st and compare(st["alt"], states[i][0]) is None:
             # the recorded state is exactly what the operational transcription (the known deviation) predicts
-            res.update(status="known", step=i, kinds=st.get("kinds", []), typed=txt(st["typed"]),
+            res.update(status="known", wb=st.get("wb", 0), step=i, kinds=st.get("kinds", []), typed=txt(st["typed"]),
                        history=[txt(s["typed"]) for s in script["steps"][:i + 1]], field=field,
                        expected=st["exp"], got=states[i][0], before=(states[i - 1][0] if i else None))
             return res
@@ -171,7 +171,7 @@ def judge(ctx, results, own, describe):
             if own in props:
                 ctx.violation(describe(r), {k: r[k] for k in ("seed", "profile", "step", "field", "typed", "history",
                                                               "expected", "got", "before", "kinds")},
-                              {"kind": "known-deviation", "model": "operational"})
+                              {"kind": "known-deviation", "model": "operational", "wordboundary": r.get("wb", 0)})
         elif r["status"] == "incomplete":
             st["incomplete"] += 1
             # crash / sanitizer abort / hang: a C05 matter, but it also voids this script
